@@ -4,6 +4,7 @@ package c14
 
 import (
 	"bytes"
+	"fmt"
 	"os"
 	"testing"
 	"time"
@@ -278,6 +279,135 @@ func TestRegressChunkFromNonAdvertiser(t *testing.T) {
 				t.Fatalf("applied %v", applied)
 			}
 			return
+		}
+	}
+}
+
+// TestRegressSeenCommitFullyVerified: the primary RPC server serves the genuine header of the snapshot height with a
+// commit whose +2/3 prefix is genuine and whose last signature is garbage. The light client stops at the quorum; the
+// commit is what node.startStateSync stores as the seen commit and consensus.reconstructLastCommit later feeds to
+// types.CommitToVoteSet, which verifies every signature and panics.
+func TestRegressSeenCommitFullyVerified(t *testing.T) {
+	if lib.IsKnown(findingCommit) {
+		lib.ObservedKnown(findingCommit)
+		t.Skip("listed as known finding")
+	}
+	c := lightChain()
+	for _, snapH := range []int{3, 6} {
+		lies := []lie{{kind: "commit-sig-behind-quorum", heights: allHeights(2)}, {kind: "honest"}, {kind: "honest"}}
+		res := lightSync(t, c, lies, 1, []int{snapH})
+		if res.initErr != nil {
+			t.Fatalf("provider: %v", res.initErr)
+		}
+		if res.done.err != nil {
+			continue // refusing to bootstrap is fine
+		}
+		h := int64(snapH)
+		if err := lib.RefCommitCheckStrict(c.GenDoc.ChainID, c.ValidatorsAt(h), c.IDs[h], h, res.done.commit); err != nil {
+			t.Errorf("snapshot %d: state sync succeeded and returned a commit that is not fully valid: %v", snapH, err)
+			func() {
+				defer func() {
+					if r := recover(); r != nil {
+						t.Errorf("snapshot %d: types.CommitToVoteSet (consensus.reconstructLastCommit) on that commit panics: %v", snapH, r)
+					}
+				}()
+				types.CommitToVoteSet(c.GenDoc.ChainID, res.done.commit, res.done.state.LastValidators)
+			}()
+		}
+	}
+}
+
+// TestRegressSnapshotKeyCollision: "A snapshot is considered identical across nodes only if all fields are equal
+// (including Metadata)": advertisements that differ in where the chunk count ends and the hash begins, or the hash ends
+// and the metadata begins, are different snapshots.
+func TestRegressSnapshotKeyCollision(t *testing.T) {
+	if lib.IsKnown(findingKey) {
+		lib.ObservedKnown(findingKey)
+		t.Skip("listed as known finding")
+	}
+	pairs := [][2]snapDesc{
+		{{Height: 5, Format: 1, Chunks: 1, Hash: "23"}, {Height: 5, Format: 1, Chunks: 12, Hash: "3"}},
+		{{Height: 5, Format: 1, Chunks: 2, Hash: "ab", Meta: "c"}, {Height: 5, Format: 1, Chunks: 2, Hash: "a", Meta: "bc"}},
+		{{Height: 5, Format: 1, Chunks: 2, Hash: "abc"}, {Height: 5, Format: 1, Chunks: 2, Hash: "ab", Meta: "c"}},
+	}
+	for _, pr := range pairs {
+		pool := statesync.VerifC14NewSnapshotPool()
+		for i, sd := range pr {
+			added, err := pool.Add(&peerDouble{id: p2p.ID(fmt.Sprintf("p%d", i))}, sd.real())
+			if err != nil || !added {
+				t.Errorf("pool.Add(%s) = %v %v after %s was added: two different snapshots share one key", sd.key(), added, err, pr[0].key())
+			}
+		}
+		if n := len(pool.Ranked()); n != 2 {
+			t.Errorf("pool holds %d snapshots after %s and %s were advertised", n, pr[0].key(), pr[1].key())
+		}
+	}
+}
+
+// TestRegressRejectSenderAfterPeerLeft: peer a advertises S, disconnects while S is being offered, the application
+// answers REJECT_SENDER ("reject all snapshots from all senders of this snapshot"), a reconnects and advertises S again.
+func TestRegressRejectSenderAfterPeerLeft(t *testing.T) {
+	if lib.IsKnown(findingLeft) {
+		lib.ObservedKnown(findingLeft)
+		t.Skip("listed as known finding")
+	}
+	c := chain()
+	dir, err := os.MkdirTemp("", "c14r-")
+	if err != nil {
+		t.Fatal(err)
+	}
+	defer os.RemoveAll(dir)
+	r := &rendezvous{evCh: make(chan *event), quit: make(chan struct{})}
+	cli := abcicli.NewLocalClient(nil, &recApp{r: r})
+	s := statesync.VerifC14NewSyncer(config.StateSyncConfig{ChunkFetchers: 0, ChunkRequestTimeout: 10 * time.Second},
+		log.NewNopLogger(), proxy.NewAppConnSnapshot(cli), proxy.NewAppConnQuery(cli), &provDouble{r: r}, dir)
+	d := &driver{t: t, c: c, r: r, s: s, classes: map[string]bool{}}
+	const h = 5
+	snap := snapDesc{Height: h, Format: 1, Chunks: 1, Hash: "S"}
+	a := &peerDouble{id: "a"}
+	if _, err := s.AddSnapshot(a, snap.real()); err != nil {
+		t.Fatal(err)
+	}
+	doneCh := make(chan struct{})
+	go func() {
+		defer close(doneCh)
+		st, cm, err := s.SyncAny(0, func() {})
+		select {
+		case r.evCh <- &event{kind: evDone, state: st, commit: cm, err: err}:
+		case <-r.quit:
+		}
+	}()
+	defer func() {
+		close(r.quit)
+		<-doneCh
+	}()
+	offers := 0
+	for {
+		ev, _ := d.quiesce()
+		if ev == nil {
+			t.Fatal("unexpected wait for a chunk")
+		}
+		switch ev.kind {
+		case evAppHash:
+			s.RemovePeer(a) // the light client is still busy; a disconnects
+			ev.reply <- provReply{hash: truthAppHash(c, h)}
+		case evOffer:
+			offers++
+			ev.reply <- abci.ResponseOfferSnapshot{Result: abci.ResponseOfferSnapshot_REJECT_SENDER}
+		case evDone:
+			if offers != 1 {
+				t.Fatalf("offers: %d", offers)
+			}
+			added, err := s.AddSnapshot(a, snap.real())
+			if err != nil {
+				t.Fatal(err)
+			}
+			if added {
+				t.Errorf("the application answered REJECT_SENDER for the snapshot advertised by a; a reconnected and its advertisement was accepted again")
+			}
+			return
+		default:
+			t.Fatalf("unexpected %v", ev.kind)
 		}
 	}
 }
